@@ -304,3 +304,47 @@ func vc_C03_polygon_sign_splitlines() {
 	grid := 6
 	vfPolySign(k, grid, vfCase("cell", grid*grid))
 }
+
+// Truncated cone with rounding: exact distance for five concrete parameter sets
+// and an arbitrary query point (rho >= 0 on the x axis, z). Oracle: the solid is
+// the inset trapezoid Q (rho, z) dilated by the rounding; outside Q the distance
+// to Q is the smallest distance to its three outer edges (segments), inside it is
+// minus the smallest distance to their lines. Q's corners are derived here from
+// the parallel offset of the slope line, in concrete arithmetic.
+func vc_C03_cone_exact() {
+	vfTimeouts(4000, 30000)
+	ps := [][4]float64{{10, 4, 2, 1}, {10, 2, 4, 1}, {10, 3, 3, 1}, {10, 4, 2, 0}, {4, 1, 0.5, 0.25}}
+	pr := ps[vfCase("cone", len(ps))]
+	H, r0, r1, round := pr[0], pr[1], pr[2], pr[3]
+	s, err := Cone3D(H, r0, r1, round)
+	vfAssume(err == nil)
+	// inset trapezoid
+	L := math.Sqrt((r1-r0)*(r1-r0) + H*H)
+	nx, ny := H/L, -(r1-r0)/L // outward unit normal of the slope
+	hh := H/2 - round
+	q0 := r0 + (-round-ny*(H/2-hh))/nx     // slope line shifted inwards by round, at z = -hh
+	q1 := r1 + (-round-ny*(hh-H/2))/nx     // ... at z = +hh
+	rho, z := vfReal("rho"), vfBounded("z")
+	vfAssume(vfAnd(rho >= 0, rho <= 100))
+	vfSetMerge(false) // one path per branch of Evaluate: each obligation sees a single formula of the code
+	d := s.Evaluate(v3.Vec{X: rho, Z: z})
+	vfSetMerge(true)
+	vfReach("cone")
+	// squared distance to a segment a-b (concrete end points)
+	seg := func(ax, ay, bx, by float64) float64 {
+		ex, ey := bx-ax, by-ay
+		l2 := ex*ex + ey*ey
+		t := ((rho-ax)*ex + (z-ay)*ey) / l2
+		tc := vfIteF(t < 0, 0, vfIteF(t > 1, 1, t))
+		dx, dy := rho-(ax+tc*ex), z-(ay+tc*ey)
+		return dx*dx + dy*dy
+	}
+	m := vfMinF(vfMinF(seg(0, -hh, q0, -hh), seg(q0, -hh, q1, hh)), seg(q1, hh, 0, hh))
+	slope := (rho-q0)*nx + (z+hh)*ny // signed distance to the inset slope line
+	inside := vfAnd(vfAnd(z > -hh, z < hh), slope < 0)
+	depth := vfMinF(vfMinF(z+hh, hh-z), -slope)
+	tol := vfTol(1e-9, 1e-7)
+	e := d + round
+	vfAssert(vfImplies(inside, vfAnd(e+depth <= tol, -(e+depth) <= tol)), "rounded cone: inside, the value is minus the depth below the nearest face of the inset cone, minus the rounding")
+	vfAssert(vfImplies(vfNot(inside), vfAnd(e >= -tol, vfAnd(e*e-m <= 100*tol, m-e*e <= 100*tol))), "rounded cone: outside, the value is the Euclidean distance to the inset cone minus the rounding")
+}
